@@ -55,7 +55,7 @@ def case_key(path):
 
 
 class Job:
-    def __init__(self, binary, flavour, args=(), shards=NCPU, label=None, timeout=3600, kind='driver', replay_bin=None, replay_campaign=None, fallback_binary=None, rc=None, shrink_unit=1):
+    def __init__(self, binary, flavour, args=(), shards=NCPU, label=None, timeout=3600, kind='driver', replay_bin=None, replay_campaign=None, fallback_binary=None, rc=None, shrink_unit=1, replay_flavour=None, fuzz_time=20, max_len=512, corpus=None):
         self.binary, self.flavour, self.args, self.shards = binary, flavour, list(args), shards
         self.label = label or binary
         self.timeout = timeout
@@ -64,6 +64,8 @@ class Job:
         self.replay_campaign = replay_campaign
         self.fallback_binary = fallback_binary
         self.rc = rc                    # (max_success, max_size) for a rapidcheck front-end job
+        self.replay_flavour = replay_flavour or flavour
+        self.fuzz_time, self.max_len, self.corpus = fuzz_time, max_len, corpus
         self.shrink_unit = shrink_unit  # granularity of delta debugging on the case data
 
 
@@ -108,7 +110,7 @@ def shrink_case(path, j, prop, budget=160):
         with open(tmp, 'w') as f:
             f.write('property: %s\ndriver: %s\ncampaign: %s\naux: %s\ndata: %s\nnote: shrinking candidate\n' % (prop, c.get('driver', ''), c.get('campaign', ''), c.get('aux', '0 0 0 0'), d.hex()))
         try:
-            r = subprocess.run([vbuild.binpath(j.flavour, j.replay_bin), '--prop', prop, '--replay', tmp], stdout=subprocess.PIPE, stderr=subprocess.STDOUT, env=san_env(j.flavour), cwd=VERIF, timeout=120)
+            r = subprocess.run([vbuild.binpath(j.replay_flavour, j.replay_bin), '--prop', prop, '--replay', tmp], stdout=subprocess.PIPE, stderr=subprocess.STDOUT, env=san_env(j.replay_flavour), cwd=VERIF, timeout=120)
             return r.returncode != 0
         except subprocess.TimeoutExpired:
             return False
@@ -158,10 +160,10 @@ def run_property(prop, spec, tier, seed, replay=None):
     jobs = spec['jobs'](tier, seed)
     targets = {}
     for j in jobs:
-        targets.setdefault(j.flavour, [])
-        for b in {j.binary, j.replay_bin}:
-            if b not in targets[j.flavour]:
-                targets[j.flavour].append(b)
+        for fl, b in ((j.flavour, j.binary), (j.replay_flavour, j.replay_bin)):
+            targets.setdefault(fl, [])
+            if b not in targets[fl]:
+                targets[fl].append(b)
     try:
         try:
             bt = vbuild.build(targets)
@@ -187,7 +189,7 @@ def run_property(prop, spec, tier, seed, replay=None):
         for jj in jobs:
             if os.path.basename(jj.replay_bin) == read_case(replay).get('driver', ''):
                 j = jj
-        rc = subprocess.run([vbuild.binpath(j.flavour, j.replay_bin), '--prop', prop, '--replay', replay], env=san_env(j.flavour)).returncode
+        rc = subprocess.run([vbuild.binpath(j.replay_flavour, j.replay_bin), '--prop', prop, '--replay', replay], env=san_env(j.replay_flavour)).returncode
         if rc != 0:
             print('VIOLATION property=%s replay=%s' % (prop, replay))
             return 1
@@ -206,7 +208,8 @@ def run_property(prop, spec, tier, seed, replay=None):
                         '--out', os.path.join(work, 'stats-%s.json' % tag), '--journal', os.path.join(work, 'journal-%s' % tag),
                         '--faildir', REPLAYS, '--hashfile', os.path.join(work, 'hash-%s.bin' % tag)] + j.args
             else:
-                cmd += j.args
+                from . import fuzzjob
+                cmd = fuzzjob.command(j, work, tag, s, seed)
             procs.append({'job': j, 'shard': s, 'tag': tag, 'cmd': cmd})
     # run with at most NCPU concurrent processes
     pending, running = list(procs), []
@@ -216,7 +219,7 @@ def run_property(prop, spec, tier, seed, replay=None):
             env = san_env(p['job'].flavour)
             env['VERIF_SHARD'] = str(p['shard']); env['VERIF_SEED'] = str(seed); env['VERIF_TIER'] = tier
             env['VERIF_PROP'] = prop
-            env['VERIF_WORK'] = work; env['VERIF_TAG'] = p['tag']
+            env['VERIF_WORK'] = work; env['VERIF_TAG'] = p['tag']; env['VERIF_REPLAYS'] = REPLAYS
             if p['job'].rc:
                 env['RC_PARAMS'] = 'seed=%d max_success=%d max_size=%d' % (seed * 1000 + p['shard'] + 1, p['job'].rc[0], p['job'].rc[1])
             p['log'] = open(os.path.join(work, 'log-%s.txt' % p['tag']), 'w')
@@ -234,13 +237,15 @@ def run_property(prop, spec, tier, seed, replay=None):
 
     # collect
     agg = {'evaluations': 0, 'nt_counted': 0, 'skipped': 0, 'classes': {}, 'campaigns': {}, 'notes': {}, 'counters': {}, 'samples': [], 'inconclusive': False}
-    failures = []   # (case path, how)
+    failures = []   # (case path, how, job)
     hashfiles = []
     for p in procs:
         j = p['job']
         if j.kind == 'fuzz':
             from . import fuzzjob
-            fuzzjob.collect(p, work, prop, agg, failures)
+            hf = fuzzjob.collect(p, work, prop, agg, failures, write_case)
+            if hf:
+                hashfiles.append(hf)
             continue
         sp = os.path.join(work, 'stats-%s.json' % p['tag'])
         st = None
@@ -292,6 +297,12 @@ def run_property(prop, spec, tier, seed, replay=None):
     distinct_nt = agg['nt_counted'] + (merge_hashfiles(hashfiles) if hashfiles else 0)
 
     # confirm failures by replay, match against known findings
+    def _size(f):
+        try:
+            return len(read_case(f[0]).get('data', '')) if f[0] else 0
+        except OSError:
+            return 1 << 30
+    failures.sort(key=_size)
     known, fixed = load_known(prop)
     violations, known_hits, unconfirmed = [], [], []
     seen = set()
@@ -304,8 +315,8 @@ def run_property(prop, spec, tier, seed, replay=None):
         confirmed = 0
         for _ in range(3):
             try:
-                r = subprocess.run([vbuild.binpath(j.flavour, j.replay_bin), '--prop', prop, '--replay', path],
-                                   stdout=subprocess.PIPE, stderr=subprocess.STDOUT, env=san_env(j.flavour), cwd=VERIF, timeout=300)
+                r = subprocess.run([vbuild.binpath(j.replay_flavour, j.replay_bin), '--prop', prop, '--replay', path],
+                                   stdout=subprocess.PIPE, stderr=subprocess.STDOUT, env=san_env(j.replay_flavour), cwd=VERIF, timeout=300)
                 if r.returncode != 0:
                     confirmed += 1
             except subprocess.TimeoutExpired:
